@@ -381,3 +381,52 @@ def c06(ctx):
     q = ctx.quick
     only = ['H_map_p0_ops2', 'H_map_p7_ops1', 'H_map_p8_ops1', 'H_map_clear_refill', 'H_map_clear_regrow', 'H_map_clear_rounds', 'H_map_chain2', 'H_map_nil'] if q else None
     return [rt_job(ctx, 'map', [H(ctx, 'C06', 'map_h.go')], unwind=200, deadline_s=900 if q else 3000, only=only)]
+
+
+def multi_tv(ctx, pid, merge=False, unwind=8, deadline_s=120):
+    """One TV job per generated multi-package program of harness/<pid>/gen.py
+    (package initialisers run on both sides before Run()); with merge=True a
+    second job per program proves all multiply-defined mergeable symbols
+    equivalent."""
+    C = _check()
+    import subprocess
+    root = os.path.join(ctx.scratch, 'tv' + pid.lower())
+    subprocess.check_call(['python3', H(ctx, pid, 'gen.py'), root, ctx.tier], stdout=subprocess.DEVNULL)
+    progs = json.load(open(os.path.join(root, 'programs.json')))
+    jobs = []
+    for name, pr in sorted(progs.items()):
+        meta = {fn: {'params': m['params'], 'result': m['result']} for fn, m in pr['funcs'].items()}
+        json.dump(meta, open(os.path.join(pr['dir'], 'meta.json'), 'w'))
+        kinds = [('init-', [], meta)]
+        if merge:
+            kinds.append(('merge-', ['--merge'], {'merge': {'params': [], 'result': 'int'}}))
+        for pre, extra, mt in kinds:
+            j = C.TVJob(pre + name, (lambda d: None), pr['pkgpath'], chunks=1, unwind=unwind, deadline_s=deadline_s, prefix='%s.%s.' % (pid, name),
+                        pkgs=pr['pkgs'], init_first=True, extra=extra)
+            j.dir = pr['dir']
+            j.meta = mt
+            jobs.append(j)
+    return jobs
+
+
+@prop('C12', level='translation_validation', title='package initialisation order')
+def c12(ctx):
+    """One TV job per generated multi-package program: the synthesized package
+    initialisers (dependencies first, variables in dependency order, init
+    functions in file order) run on both sides before Run()."""
+    return multi_tv(ctx, 'C12')
+
+
+@prop('C07', level='translation_validation', title='dynamic type identity and interface satisfaction')
+def c07(ctx):
+    """Near-miss type pairs and (concrete type, interface) pairs meet at run time
+    in generated multi-package programs; the oracle decides identity with
+    go/types, llgo's side runs its descriptors through its own runtime source."""
+    return multi_tv(ctx, 'C07', merge=True, unwind=12, deadline_s=300)
+
+
+@prop('C14', level='translation_validation', title='link names unique and consistent')
+def c14(ctx):
+    """Naming-stress programs validated against the oracle, plus solver-checked
+    equivalence of every symbol that several modules define."""
+    return multi_tv(ctx, 'C14', merge=True)
